@@ -144,7 +144,8 @@ def convert(raw: list[dict[str, Any]], plurals: set[str], attempts: int = 3) -> 
             failed.pop((e.get('loop'), e['plural'], e.get('ns'), 'watch'), None)
             out.append({'ev': 'open', 'key': f'{e["plural"]}|{e.get("ns") or "*"}', 'since': e.get('since') or 0})
             opened.add(e['watch']); out.extend(held.pop(e['watch'], []))
-        elif ev == 'srv.watch.line' and e.get('res') in plurals and e.get('rv') is not None and e.get('type') != 'ERROR':
+        elif (ev == 'srv.watch.line' and e.get('res') in plurals and e.get('rv') is not None
+              and e.get('type') in ('ADDED', 'MODIFIED', 'DELETED', 'BOOKMARK')):       # (a line of a type the client does not know is skipped whole)
             (out if e['watch'] in opened else held.setdefault(e['watch'], [])).append({'ev': 'line', 'key': f'{e["res"]}|*', 'rv': e['rv'], 'watch': e['watch']})
         elif ev == 'h.enter' and e.get('kind') == 'event' and e.get('name') in OBJS:
             out.append({'ev': 'seen', 'o': e['name'], 'rv': e['rv'] or 0, 'gone': e.get('type') == 'DELETED'})
